@@ -48,8 +48,142 @@ let show_obs (l : cobs list) : string =
   String.concat "," (List.map (fun (((mn, f), l), n) ->
       Printf.sprintf "(%d:%d-%d/%d)" (int_of_nat mn) (int_of_z f) (int_of_z l) (int_of_nat n)) l)
 
+(* ------------------------------------------------------------------ family K (labelled runs) *)
+let rec pkdefs = function
+  | [] -> []
+  | m :: c :: k :: x :: a :: r ->
+      { a_base = { d_mask = n_of_int (int_of_string m); d_cmp = n_of_int (int_of_string c) };
+        a_kind = n_of_int (int_of_string k); a_var = n_of_int (int_of_string x); a_k = zs a } :: pkdefs r
+  | _ -> failwith "bad defs"
+
+(* one output row: part mn f l n cl, then nv times (mask cnt sum min max last) *)
+type krec = { kp : int; kmn : int; kf : int; kl : int; kn : int; kcl : int; kvars : int list list }
+
+let rec take n l = if n = 0 then ([], l) else
+    match l with x :: r -> let (a, b) = take (n - 1) r in (x :: a, b) | [] -> failwith "short output record"
+
+let rec pkouts nv toks =
+  match toks with
+  | [] -> []
+  | p :: mn :: f :: l :: n :: cl :: r ->
+      let rec vars k r = if k = 0 then ([], r) else
+          let (a, r1) = take 6 r in let (l, r2) = vars (k - 1) r1 in (List.map int_of_string a :: l, r2) in
+      let (vs, r1) = vars nv r in
+      { kp = int_of_string p; kmn = int_of_string mn; kf = int_of_string f; kl = int_of_string l;
+        kn = int_of_string n; kcl = int_of_string cl; kvars = vs } :: pkouts nv r1
+  | _ -> failwith "bad outs"
+
+let label_names = [| "A"; "B"; "C"; "D" |]
+let show_labels (w : int list) = String.concat "" (List.map (fun v -> if v >= 0 && v < 4 then label_names.(v) else "?") w)
+
+exception Kfail of string
+
+(* the classification a record reports for the rows a .. a+n-1 of its partition: row i carries the
+   weight 2^i, SUM(X.w) is the set of rows labelled X; every row must be in exactly one set *)
+let decode_labels (r : krec) (a : int) : int list =
+  let masks = List.map (fun v -> List.nth v 0) r.kvars in
+  let all = List.fold_left (lor) 0 masks in
+  let want = ((1 lsl r.kn) - 1) lsl a in
+  if all <> want || List.fold_left (+) 0 masks <> want then
+    raise (Kfail (Printf.sprintf "measure SUM(X.w) of match %d (ids %d-%d) do not partition its rows: %s" r.kmn r.kf r.kl
+                    (String.concat "," (List.map string_of_int masks))));
+  List.init r.kn (fun i ->
+      let rec find x = function [] -> -1 | m :: t -> if m land (1 lsl (a + i)) <> 0 then x else find (x + 1) t in
+      find 0 masks)
+
+let handle_k (toks : string list) : string =
+  match toks with
+  | mode :: skip :: skipvar :: within :: rest ->
+      (match split_hash rest with
+       | [ []; pt; ds; rs; os ] ->
+           let (sp, left) = ppat pt in
+           if left <> [] then "bad pattern tail" else
+           let sv = n_of_int (int_of_string skipvar) in
+           let sk = (match skip with "P" -> SkPast | "N" -> SkNext | "F" -> SkFirst sv
+                                   | "L" | "V" -> SkLast sv | _ -> failwith "bad skip") in
+           let (nv, defs) = (match ds with n :: r -> (int_of_string n, pkdefs r) | [] -> failwith "bad defs") in
+           let c = { l_pat = desugar sp; l_defs = defs; l_skip = sk; l_within = zs within } in
+           let s = prows 1 rs in
+           let recs = pkouts nv os in
+           let parts = List.sort_uniq compare (List.map (fun (p, _) -> int_of_n p) s) in
+           let verdict = ref "" and nt = ref false in
+           List.iter (fun p ->
+               if !verdict = "" then begin
+                 let rows = part_rows (n_of_int p) s in
+                 let arr = Array.of_list rows in
+                 let pos_of id = let r = ref (-1) in Array.iteri (fun i x -> if int_of_z x.r_id = id then r := i) arr; !r in
+                 let mine = List.filter (fun r -> r.kp = p) recs in
+                 let shown = ref [] in
+                 (try
+                    (* every record: a run of rows of the partition, labels, measures of that labelling *)
+                    let judged = List.map (fun r ->
+                        let a = pos_of r.kf and b = pos_of r.kl in
+                        if a < 0 || b < 0 || r.kn < 1 || b <> a + r.kn - 1 then
+                          raise (Kfail (Printf.sprintf "run match %d ids %d-%d count %d is not a run of the partition" r.kmn r.kf r.kl r.kn));
+                        let w = decode_labels r a in
+                        let seg = Array.to_list (Array.sub arr a r.kn) in
+                        (* X.id is read off the whole match also on the earlier rows of ALL ROWS PER MATCH
+                           (cep/eval.go resolveSymbolField scans all labels): judged with the whole match below *)
+                        let obs = List.mapi (fun xi -> function [ _; c; s; i; x; l ] ->
+                            let l = if mode = "O" then z_of_int l
+                              else (match lmeas seg (List.map n_of_int w) (n_of_int xi) with (_, l') -> l') in
+                            ((((z_of_int c, z_of_int s), z_of_int i), z_of_int x), l) | _ -> failwith "bad var record") r.kvars in
+                        if not (lmeas_ok seg (List.map n_of_int w) (n_of_int (max r.kcl 0)) obs) || r.kcl < 0 then
+                          raise (Kfail (Printf.sprintf "measure match %d ids %d-%d labelled %s: CLASSIFIER()=%s, (COUNT SUM MIN(id) MAX(id) X.id) per variable = %s are not those of that labelling"
+                                          r.kmn r.kf r.kl (show_labels w) (show_labels [r.kcl])
+                                          (String.concat " " (List.map (function _ :: t -> "(" ^ String.concat "," (List.map string_of_int t) ^ ")" | [] -> "") r.kvars))));
+                        (r, w)) mine in
+                    (* ALL ROWS PER MATCH: the records of one match are its prefixes 1..k (RUNNING measures) *)
+                    let matches =
+                      if mode = "O" then judged
+                      else begin
+                        let rec group cur acc = function
+                          | [] -> List.rev (match cur with Some x -> x :: acc | None -> acc)
+                          | ((r, w) as x) :: t ->
+                              (match cur with
+                               | Some (r0, w0) when r.kn > 1 ->
+                                   if List.map (fun v -> List.nth v 5) r.kvars <> List.map (fun v -> List.nth v 5) r0.kvars then
+                                     raise (Kfail (Printf.sprintf "measure ALL ROWS PER MATCH: X.id differs between the rows of match %d" r.kmn));
+                                   let rec is_prefix a b = match a, b with [], _ -> true | x :: s, y :: u -> x = y && is_prefix s u | _ -> false in
+                                   if r.kmn <> r0.kmn || r.kf <> r0.kf || r.kn <> r0.kn + 1 || not (is_prefix w0 w) then
+                                     raise (Kfail (Printf.sprintf "measure ALL ROWS PER MATCH: row %d of match %d (ids %d-%d, labels %s) does not continue the row before it (match %d, ids %d-%d, labels %s)"
+                                                     r.kn r.kmn r.kf r.kl (show_labels w) r0.kmn r0.kf r0.kl (show_labels w0)));
+                                   group (Some x) acc t
+                               | Some x0 -> if r.kn <> 1 then raise (Kfail "run ALL ROWS PER MATCH: a match does not start with its first row");
+                                   group (Some x) (x0 :: acc) t
+                               | None -> if r.kn <> 1 then raise (Kfail "run ALL ROWS PER MATCH: a match does not start with its first row");
+                                   group (Some x) acc t) in
+                        group None [] judged
+                      end in
+                    shown := matches;
+                    if mode <> "O" then List.iter (fun (r, w) ->
+                        let a = pos_of r.kf in
+                        let seg = Array.to_list (Array.sub arr a r.kn) in
+                        List.iteri (fun xi v ->
+                            match lmeas seg (List.map n_of_int w) (n_of_int xi) with (_, l') ->
+                              if int_of_z l' <> List.nth v 5 then
+                                raise (Kfail (Printf.sprintf "measure match %d ids %d-%d labelled %s: %s.id = %d" r.kmn r.kf r.kl (show_labels w) label_names.(xi) (List.nth v 5)))) r.kvars) matches;
+                    let out = List.map (fun (r, w) ->
+                        ((((nat_of_int r.kmn, z_of_int r.kf), z_of_int r.kl), nat_of_int r.kn), List.map n_of_int w)) matches in
+                    (match chk_C15L c rows out with
+                     | Some cl -> raise (Kfail (string_of_cep_clause cl))
+                     | None -> ());
+                    if List.exists (fun (r, w) -> r.kn >= 4 && List.length (List.sort_uniq compare w) >= 2) matches then nt := true
+                  with Kfail m ->
+                    let longest_at a = match llongest_at c (Array.to_list (Array.sub arr a (Array.length arr - a))) with
+                      | Some k -> string_of_int (int_of_nat k) | None -> "none" in
+                    verdict := Printf.sprintf "chk %s part=%d impl=%s longest_at_reported_starts=%s" m p
+                        (String.concat "," (List.map (fun (r, w) -> Printf.sprintf "(%d:%d-%d/%d:%s)" r.kmn r.kf r.kl r.kn (show_labels w)) !shown))
+                        (String.concat "," (List.map (fun (r, _) -> let a = pos_of r.kf in if a < 0 then "?" else longest_at a) !shown)))
+               end) parts;
+           if List.exists (fun r -> not (List.mem r.kp parts)) recs then "chk run a match of a partition without rows"
+           else if !verdict <> "" then !verdict else if !nt then "ok nt" else "ok"
+       | _ -> "bad line")
+  | _ -> "bad line"
+
 let handle (toks : string list) : string =
   match toks with
+  | "K" :: rest -> handle_k rest
   | skip :: skipvar :: within :: rest ->
       (match split_hash rest with
        | [ []; pt; ds; rs; os ] ->
@@ -62,6 +196,7 @@ let handle (toks : string list) : string =
            let c = { c_pat = desugar sp; c_defs = defs; c_skip = sk; c_within = zs within } in
            let s = prows 1 rs in
            let outs = pouts os in
+           let parts = List.sort_uniq compare (List.map (fun (p, _) -> int_of_n p) s) in
            let verdict = ref "" and nt = ref false in
            List.iter (fun p ->
                if !verdict = "" then begin
@@ -72,8 +207,8 @@ let handle (toks : string list) : string =
                   | Some cl -> verdict := Printf.sprintf "chk %s part=%d impl=%s ref=%s" (string_of_cep_clause cl) p (show_obs impl) (show_obs model)
                   | None -> if model <> impl then verdict := Printf.sprintf "diff part=%d impl=%s ref=%s" p (show_obs impl) (show_obs model));
                  if List.length impl >= 2 || List.exists (fun (_, n) -> int_of_nat n >= 2) impl then nt := true
-               end) [0; 1; 2];
-           if List.exists (fun (q, _) -> q < 0 || q > 2) outs then "bad partition"
+               end) parts;
+           if List.exists (fun (q, _) -> not (List.mem q parts)) outs then "chk run a match of a partition without rows"
            else if !verdict <> "" then !verdict else if !nt then "ok nt" else "ok"
        | _ -> "bad line")
   | _ -> "bad line"
